@@ -1103,7 +1103,14 @@ fn byte_sweep(rep: &Report, prop: &str) {
 /// tree and the set of rewritten paths must equal the in-process result. This also covers src/main.rs
 /// (the mapping of -N, -n, -r, verify, clean).
 fn cli_binding(rep: &Report, prop: &str) {
-    let p = project("solo");
+    // solo: all depth<=1 states; chain and nested (input selection, recursion and dependencies matter): the two roots
+    for (pname, deep) in [("solo", true), ("chain", false), ("nested", false)] {
+        cli_binding_project(rep, prop, pname, deep);
+    }
+}
+
+fn cli_binding_project(rep: &Report, prop: &str, pname: &str, deep: bool) {
+    let p = project(pname);
     let ver0 = vec![0; p.sources.len()];
     let pristine = p.pristine(&ver0);
     let built = {
@@ -1113,6 +1120,9 @@ fn cli_binding(rep: &Report, prop: &str) {
     let mut states: Vec<(Tree, Vec<Op>)> = vec![(pristine.clone(), vec![]), (built.clone(), vec![Op::Run { mode: Mode::Build, sel: 0, tn: true }])];
     let mut seen: HashSet<u64> = states.iter().map(|s| tree_key(&s.0)).collect();
     for (t, h) in states.clone() {
+        if !deep {
+            break;
+        }
         for op in ops_for(&p, &t, prop, false, false) {
             if let Some(t2) = apply_pure(&p, &t, &op) {
                 if seen.insert(tree_key(&t2)) {
@@ -1137,7 +1147,7 @@ fn cli_binding(rep: &Report, prop: &str) {
             jobs.push((si, op));
         }
     }
-    rep.set("production_binary_transitions", json!(jobs.len()));
+    rep.add("production_binary_transitions", jobs.len() as u64);
     sharded_dyn(rep, par_threads() * 3, |_k, _n, next, rep| {
         let b = Bench::new();
         loop {
@@ -1180,7 +1190,7 @@ fn cli_binding(rep: &Report, prop: &str) {
                     rep.violate(
                         "binary-differs-from-library",
                         format!(
-                            "[solo] {} ; txtpp {:?}: exit {code} (timeout {to}), rewrote {:?}; the library run {} and rewrote {:?}{}",
+                            "[{pname}] {} ; txtpp {:?}: exit {code} (timeout {to}), rewrote {:?}; the library run {} and rewrote {:?}{}",
                             h.iter().map(|o| o.describe(&p)).collect::<Vec<_>>().join(" ; "),
                             args,
                             rew(&before, &after),
@@ -1188,7 +1198,7 @@ fn cli_binding(rep: &Report, prop: &str) {
                             rew(&lib.before, &lib.after),
                             if state_of(&after) != state_of(&lib.after) { "; resulting trees differ" } else { "" }
                         ),
-                        json!({"engine": "H-cli", "prop": prop, "history": h.iter().map(|o| o.to_json()).collect::<Vec<_>>(), "op": op.to_json()}),
+                        json!({"engine": "H-cli", "prop": prop, "project": pname, "history": h.iter().map(|o| o.to_json()).collect::<Vec<_>>(), "op": op.to_json()}),
                     );
                 }
             }
@@ -1197,7 +1207,7 @@ fn cli_binding(rep: &Report, prop: &str) {
 }
 
 pub fn replay_cli(v: &Value) -> bool {
-    let p = project("solo");
+    let p = project(v["project"].as_str().unwrap_or("solo"));
     let hist: Vec<Op> = v["history"].as_array().map(|a| a.iter().map(Op::from_json).collect()).unwrap_or_default();
     let op = Op::from_json(&v["op"]);
     let b = Bench::new();
